@@ -230,6 +230,6 @@ func runTables(c *h.Ctx) {
 		c.Extra("exhaustive_table_value_entries", nf)
 		c.Extra("exhaustive_table_type_entries", nt)
 		c.Extra("exhaustive_table_packages", len(env.Packages))
-		c.Extra("exhaustive", "package tables: every entry of env.Packages and env.PackageTypes of the tree under test was checked")
+		c.Extra("package_tables_exhaustive_note", "package tables: every entry of env.Packages and env.PackageTypes of the tree under test was checked")
 	}
 }
